@@ -106,7 +106,7 @@ def poscarDoc (f : Fmt) (header : List String) (symbols : Option (List String)) 
 
 theorem writePoscarDoc_ok (s : Sys) (header : List String) (symbols : Option (List String)) (coordstyle : String)
     (scale : ℚ) (f : Fmt) (doc : Doc) (h : writePoscarDoc s header symbols coordstyle scale f = .ok doc) :
-    scale ≠ 0 ∧ s.natoms ≠ 0 ∧ coordstyle.toList ≠ [] ∧ (∀ l, symbols = some l → l.length = s.natypes) ∧
+    0 < scale ∧ s.natoms ≠ 0 ∧ coordstyle.toList ≠ [] ∧ (∀ l, symbols = some l → l.length = s.natypes) ∧
     doc = poscarDoc f header symbols coordstyle scale (poscarNums s (isCartTok (strTok coordstyle)) scale) := by
   unfold writePoscarDoc at h
   cases hcs : coordstyle.toList with
@@ -131,7 +131,7 @@ theorem writePoscarDoc_ok (s : Sys) (header : List String) (symbols : Option (Li
         · cases h
         · rename_i hna
           simp only [List.cons_ne_nil, if_false, reduceCtorEq, Except.ok.injEq] at h
-          exact ⟨hsc, hna, by simp, by simp, h.symm⟩
+          exact ⟨lt_of_not_ge hsc, hna, by simp, by simp, h.symm⟩
     | some l =>
       simp only [hcs, bind, Except.bind, pure, Except.pure, throw, throwThe, MonadExceptOf.throw] at h
       split at h
@@ -145,7 +145,7 @@ theorem writePoscarDoc_ok (s : Sys) (header : List String) (symbols : Option (Li
           · cases h
           · rename_i hl
             simp only [Except.ok.injEq] at h
-            refine ⟨hsc, hna, by simp, ?_, h.symm⟩
+            refine ⟨lt_of_not_ge hsc, hna, by simp, ?_, h.symm⟩
             intro l' hl'; injection hl' with hl'; subst hl'
             simpa using hl
 
@@ -405,7 +405,7 @@ theorem parsePoscar_writePoscar (s : Sys) (header : List String) (symbols : Opti
     (scale : ℚ) (f : Fmt) (text : List Char) (h : writePoscar s header symbols coordstyle scale f = .ok text)
     (hs : PoscarStringsOk header symbols coordstyle) (hscale : 0 < fmtVal f scale)
     (hlen : s.atype.length = s.pos.length) (hty : ∀ t ∈ s.atype, 1 ≤ t ∧ t ≤ (s.natypes : Int)) :
-    scale ≠ 0 ∧ s.natoms ≠ 0 ∧ (∀ l, symbols = some l → l.length = s.natypes) ∧
+    0 < scale ∧ s.natoms ≠ 0 ∧ (∀ l, symbols = some l → l.length = s.natypes) ∧
     parsePoscar text = some (poscarExpected f header symbols coordstyle scale
       (poscarNums s (isCartTok (strTok coordstyle)) scale)) := by
   unfold writePoscar at h
